@@ -22,6 +22,9 @@ type ParseCase struct {
 	ExecErr string `json:"exec_err,omitempty"`
 	// Ini: entries read from an INI file before the command line is parsed
 	Ini []IniLine `json:"ini,omitempty"`
+	// Warmup: argument vector parsed first on the same parser object
+	Warmup    []string `json:"warmup,omitempty"`
+	HasWarmup bool     `json:"has_warmup,omitempty"`
 }
 
 var errExecPlain = errors.New("sentinel: command failed")
